@@ -423,6 +423,7 @@ func hooksC17() Hooks {
 		return true
 	}
 	h.AfterOpen = func(r *Run) { r.Ctx["layout"] = segLayout(r.Dir) }
+	h.Refresh = h.AfterOpen
 	h.BeforeClose = func(r *Run) {
 		q := r.obsQ(false, false)
 		r.Ctx["q"], r.Ctx["obs"] = q, Observe(r.L, q)
